@@ -2,8 +2,8 @@
    ONLY statements: each theorem is closed by `exact` of a lemma proved elsewhere and followed by Print Assumptions. *)
 From Coq Require Import ZArith NArith List Bool Lia Permutation FMapPositive.
 Import ListNotations.
-Require Import Base Strings Builtins Interp Machine Spec HeapFacts Refine1 Refine2 Refine3 Refine4 Num FuelMono LinkStack Float Scope.
-
+Require Import Base Strings Builtins Interp Machine Spec HeapFacts Refine1 Refine2 Refine3 Refine4 Num FuelMono LinkStack Float Scope RunG SeqProofs CallRules.
+Open Scope Z_scope.
 (* the trampolined machine of interpret.evaluate (frames, cache boxes, requestor chains, tail replacement) computes the big-step call-by-need semantics Spec.bs: same answer, same heap, same world, through states of at most 1 + demand-depth frames *)
 Theorem machine_implements_spec fuel prog stdin h' w' r d :
   spec_main fuel prog stdin = Done h' w' r d ->
@@ -90,4 +90,81 @@ Theorem argument_reference_by_value (rec : list positive -> heap -> world -> tas
                else inr (mkerr c_range sp)) (1 + d).
 Proof. exact (Scope.argument_reference_by_value rec ia r sp e argv ip h w i h1 w1 d). Qed.
 Print Assumptions argument_reference_by_value.
+
+(* CALLING A VALUE THAT IS NOT A FUNCTION: Booleans, dictionaries, lists, strings, byte strings, exceptions (and functions) are callable, nothing else *)
+Theorem callable_kinds rec ip h w sp v :
+  runG rec value ip h w (e <- proc_functional sp (inr v) true ;; Ret (VNil)) =
+  match v with
+  | VBool _ | VDict _ | VList _ | VStr _ | VBytes _ | VErr _ _ | VFun _ => DoneG h w (inl VNil) 0
+  | _ => DoneG h w (inr (mkerr c_type sp)) 0 end.
+Proof. exact (CallRules.callable_kinds rec ip h w sp v). Qed.
+Print Assumptions callable_kinds.
+
+(* Boolean: True selects the first of exactly two arguments, False the second; neither is evaluated *)
+Theorem call_boolean rec ip h w sp b x y :
+  runG rec value ip h w (apply_body (EBool b) sp [x; y]) = DoneG h w (inl (if b then x else y)) 0.
+Proof. exact (CallRules.call_boolean rec ip h w sp b x y). Qed.
+Print Assumptions call_boolean.
+
+Theorem call_boolean_arity rec ip h w sp b argv :
+  length argv <> 2%nat -> runG rec value ip h w (apply_body (EBool b) sp argv) = DoneG h w (inr (mkerr c_value sp)) 0.
+Proof. exact (CallRules.call_boolean_arity rec ip h w sp b argv). Qed.
+Print Assumptions call_boolean_arity.
+
+(* the one indexing rule: positions -len .. len-1, a negative position counted from the end once *)
+Theorem index_rule {A} (l:list A) (i:Z) :
+  py_nth l i = if (- Z.of_nat (length l) <=? i) && (i <? Z.of_nat (length l))
+               then nth_error l (Z.to_nat (i mod Z.of_nat (length l))) else None.
+Proof. exact (CallRules.index_rule l i). Qed.
+Print Assumptions index_rule.
+
+(* list: the element at the position, unevaluated; otherwise the range error *)
+Theorem call_list rec ip h w sp l i :
+  runG rec value ip h w (apply_body (ESeq (VList l)) sp [VInt i]) =
+  match py_nth l i with Some x => DoneG h w (inl x) 0 | None => DoneG h w (inr (mkerr c_range sp)) 0 end.
+Proof. exact (CallRules.call_list rec ip h w sp l i). Qed.
+Print Assumptions call_list.
+
+Theorem call_exception rec ip h w sp s l i :
+  runG rec value ip h w (apply_body (ESeq (VErr s l)) sp [VInt i]) =
+  match py_nth l i with Some x => DoneG h w (inl x) 0 | None => DoneG h w (inr (mkerr c_range sp)) 0 end.
+Proof. exact (CallRules.call_exception rec ip h w sp s l i). Qed.
+Print Assumptions call_exception.
+
+(* string: the one-character string at the position *)
+Theorem call_string rec ip h w sp s i :
+  runG rec value ip h w (apply_body (ESeq (VStr s)) sp [VInt i]) =
+  match py_nth s i with Some c => DoneG h w (inl (VStr [c])) 0 | None => DoneG h w (inr (mkerr c_range sp)) 0 end.
+Proof. exact (CallRules.call_string rec ip h w sp s i). Qed.
+Print Assumptions call_string.
+
+Theorem call_bytes rec ip h w sp s i :
+  runG rec value ip h w (apply_body (ESeq (VBytes s)) sp [VInt i]) =
+  match py_nth s i with Some c => DoneG h w (inl (VBytes [c])) 0 | None => DoneG h w (inr (mkerr c_range sp)) 0 end.
+Proof. exact (CallRules.call_bytes rec ip h w sp s i). Qed.
+Print Assumptions call_bytes.
+
+Theorem call_sequence_arity rec ip h w sp sq argv :
+  length argv <> 1%nat -> runG rec value ip h w (apply_body (ESeq sq) sp argv) = DoneG h w (inr (mkerr c_value sp)) 0.
+Proof. exact (CallRules.call_sequence_arity rec ip h w sp sq argv). Qed.
+Print Assumptions call_sequence_arity.
+
+Theorem call_sequence_index_type rec ip h w sp sq a :
+  isthunk a = false -> is_int a = false -> runG rec value ip h w (apply_body (ESeq sq) sp [a]) = DoneG h w (inr (mkerr c_type sp)) 0.
+Proof. exact (CallRules.call_sequence_index_type rec ip h w sp sq a). Qed.
+Print Assumptions call_sequence_index_type.
+
+(* dictionary: the value stored under the key equal to the argument's key form, otherwise the not-found error *)
+Theorem call_dict rec ip h w sp d a h1 w1 k d1 :
+  rec ip h w (TComp (proc_body (PKey a))) = Done h1 w1 (inl k) d1 ->
+  runG rec value ip h w (apply_body (EDict d) sp [a]) =
+  match dict_lookup d k with Some v => DoneG h1 w1 (inl v) d1 | None => DoneG h1 w1 (inr (mkerr c_notfound sp)) d1 end.
+Proof. exact (CallRules.call_dict rec ip h w sp d a h1 w1 k d1). Qed.
+Print Assumptions call_dict.
+
+Theorem call_dict_arity rec ip h w sp d argv :
+  length argv <> 1%nat ->
+  runG rec value ip h w (apply_body (EDict d) sp argv) = DoneG h w (inr (mkerr c_value sp)) 0.
+Proof. exact (CallRules.call_dict_arity rec ip h w sp d argv). Qed.
+Print Assumptions call_dict_arity.
 
